@@ -40,14 +40,16 @@ BATTERY = [None, {"a": 1}, {"a": {"$gt": 0}}, {"b": {"$exists": True}}, {"a": {"
 
 ALPHA = [
     ["init", 0], ["init", 1], ["remove", 0], ["rekey", 0, 2], ["rekey", 1, 0], ["update_cache", "A"],
-    ["update_cache", "fresh"], ["restart"], ["delcache"], ["reassign", 0],
+    ["update_cache", "fresh"], ["restart"], ["delcache"], ["reassign", 0], ["init_other", 0],
 ]
 
 
 def rand_op(rng):
     r = rng.random()
-    if r < 0.3:
+    if r < 0.24:
         return ["init", rng.randrange(len(UNIVERSE))]
+    if r < 0.3:
+        return ["init_other", rng.randrange(len(UNIVERSE))]  # through another live session, not the acting one
     if r < 0.45:
         return ["remove", rng.randrange(8)]
     if r < 0.62:
@@ -343,6 +345,14 @@ def run_case(ctx, case):
             viol("long-lived-session-differs", "a long-lived session disagrees with the model",
                  {"problems": bad[:4], "cache_ids": sorted(cache) if cache is not None else None})
             return False
+        # the acting session is a long-lived session too
+        obs_A = observe_session(A, ids)
+        ctx.monitor("long_lived_session")
+        bad = compare_obs(obs_A, exp)
+        if bad:
+            viol("long-lived-session-differs", "the acting session disagrees with the model",
+                 {"problems": bad[:4], "session": "acting", "cache_ids": sorted(cache) if cache is not None else None})
+            return False
         obs_C = observe_path(path, ids)
         # copy without cache file (fresh path names: filecmp/stat caches cannot interfere)
         cp = ctx.scratch("nocache")
@@ -430,6 +440,10 @@ def run_case(ctx, case):
         if kind == "init":
             sp = UNIVERSE[op[1]]
             A.open_job(copy.deepcopy(sp)).init()
+            m[model.model_id(sp)] = copy.deepcopy(sp)
+        elif kind == "init_other":
+            sp = UNIVERSE[op[1]]
+            signac.Project(path).open_job(copy.deepcopy(sp)).init()
             m[model.model_id(sp)] = copy.deepcopy(sp)
         elif kind == "remove":
             if m:
